@@ -1,9 +1,11 @@
 package checks
 
 import (
+	"encoding/base64"
 	"fmt"
 	"math"
 	"unicode"
+	"unicode/utf16"
 	"unicode/utf8"
 
 	dtpb "github.com/google/fhir/go/proto/google/fhir/proto/r4/core/datatypes_go_proto"
@@ -396,8 +398,8 @@ func maxI(a, b int64) int64 {
 
 func init() {
 	core.Register(&core.Check{
-		ID:   "C14",
-		Rule: "all strings of length 0..4 (quick) / 0..5 (thorough) over {a,b,é,€,😀,U+0301} plus periodic strings of length 6..12; for each: length, toChars, upper, lower, substring for all start in [-2,len+2] u {MinInt32,MaxInt32} x all len in [-1,len+2] u {MaxInt32}, indexOf/contains/startsWith/endsWith for every substring and every pattern of length <=2, replace with 3 substitutions; String variables, literals and FHIR string/code/uri/markdown/id receivers; compared with a rune-slice reference and the four consequences on the implementation's own outputs; distinct by construction",
+		ID:          "C14",
+		Rule:        "all strings of length 0..4 (quick) / 0..5 (thorough) over {a,b,é,€,😀,U+0301} plus periodic strings of length 6..12; for each: length, toChars, upper, lower, substring for all start in [-2,len+2] u {MinInt32,MaxInt32} x all len in [-1,len+2] u {MaxInt32}, indexOf/contains/startsWith/endsWith for every substring and every pattern of length <=2, replace with 3 substitutions; String variables, literals and FHIR string/code/uri/markdown/id receivers; compared with a rune-slice reference and the four consequences on the implementation's own outputs; distinct by construction",
 		Assumptions: []string{"a character is a Unicode code point (a combining mark is its own character)", "substring with a non-positive length: '' and empty are both accepted (the specification is silent)", "upper/lower use per-code-point simple case mapping"},
 		Subs: func(tier string) []core.Sub {
 			maxLen := 5
@@ -431,25 +433,51 @@ func init() {
 					for _, rc := range []struct {
 						kind string
 						v    any
-					}{{"fhir.string", fhir.String(s)}, {"fhir.code", fhir.Code(s)}, {"fhir.uri", fhir.URI(s)}, {"fhir.markdown", fhir.Markdown(s)}, {"fhir.id", &dtpb.Id{Value: s}}} {
+					}{{"fhir.string", fhir.String(s)}, {"fhir.code", fhir.Code(s)}, {"fhir.uri", fhir.URI(s)}, {"fhir.markdown", fhir.Markdown(s)}, {"fhir.id", &dtpb.Id{Value: s}},
+						{"fhir.url", &dtpb.Url{Value: s}}, {"fhir.canonical", &dtpb.Canonical{Value: s}}, {"fhir.oid", &dtpb.Oid{Value: s}}, {"fhir.uuid", &dtpb.Uuid{Value: s}}, {"fhir.xhtml", &dtpb.Xhtml{Value: s}}} {
 						c14One(r, ex, rc.v, rc.kind, s, pat2[:13], false)
+					}
+					// a base64Binary element is the String of its base64 text: the bytes are those of the same short string
+					// (valid UTF-8) and of its prefix cut inside a multi-byte character (not valid UTF-8)
+					for _, raw := range [][]byte{[]byte(s), append([]byte{0xff, 0xfe}, []byte(s)...)} {
+						b64 := base64.StdEncoding.EncodeToString(raw)
+						c14One(r, ex, &dtpb.Base64Binary{Value: raw}, "fhir.base64Binary", b64, []string{"", "/", "=", "A", "w=", "==", "5B", b64}, false)
 					}
 					r.NontrivialByConstruction(r.Evals - before)
 				}},
 				{Name: "literal-receivers", N: len(short), Note: "strings of length 0..2 written as string literals", Run: func(i int, r *core.Rec) {
 					s := short[i]
 					rs := []rune(s)
-					for _, c := range []struct{ fn, src string; want any }{
-						{"length", "'" + s + "'.length()", int64(len(rs))},
-						{"upper", "'" + s + "'.upper()", nil},
-						{"indexOf", "'" + s + "x'.indexOf('x')", int64(len(rs))},
-						{"substring", "'x" + s + "'.substring(1)", s},
-					} {
-						o := c14Out(lib.Run(c.src, nil, nil))
+					// the same string written raw and with every character as a \u escape (UTF-16 code units: a character
+					// beyond the BMP is an escaped surrogate pair)
+					esc := ""
+					for _, ch := range rs {
+						for _, u := range utf16.Encode([]rune{ch}) {
+							esc += fmt.Sprintf("\\u%04X", u)
+						}
+					}
+					type litCase struct {
+						fn, src string
+						want    any
+					}
+					var cases []litCase
+					for _, lit := range []string{s, esc} {
+						cases = append(cases,
+							litCase{"length", "'" + lit + "'.length()", int64(len(rs))},
+							litCase{"upper", "'" + lit + "'.upper()", nil},
+							litCase{"indexOf", "'" + lit + "x'.indexOf('x')", int64(len(rs))},
+							litCase{"substring", "'x" + lit + "'.substring(1)", s},
+							litCase{"toChars", "'" + lit + "'.toChars().count()", int64(len(rs))},
+							litCase{"equal", "('" + lit + "' = %raw)", true})
+					}
+					for _, c := range cases {
+						o := c14Out(lib.Run(c.src, nil, map[string]any{"raw": system.String(s)}))
 						r.Eval()
 						r.Nontrivial(c.src, o.kind)
 						bad := false
 						switch w := c.want.(type) {
+						case bool:
+							bad = !(len(o.res.Coll) == 1 && o.res.Coll[0] == system.Boolean(w))
 						case int64:
 							bad = !(o.kind == "int" && o.i == w)
 						case string:
